@@ -582,7 +582,14 @@ class Models:
     def meth_str_join(self, I, sep, seq):
         if isinstance(seq, VChunks):
             if not (z3.is_string_value(z3.simplify(sep.term)) and z3.simplify(sep.term).as_string() == ''):
-                raise OutOfSubset('join of a chunk list with a non-empty separator')
+                if seq.items is None:
+                    raise OutOfSubset('join of a chunk list with a non-empty separator')
+                parts = []
+                for i, t in enumerate(seq.items):
+                    if i:
+                        parts.append(sep.term)
+                    parts.append(t)
+                return VBytes(S.concat(parts))
             return VBytes(seq.flat)
         if isinstance(seq, VEmptyList):
             return type(sep)('' if isinstance(sep, VStr) else b'')
@@ -795,7 +802,15 @@ class Models:
         return VNone()
 
     def meth_VList_reverse(self, I, l):
-        raise OutOfSubset('list.reverse on a symbolic list')
+        items = I.iter_items(l)
+        if items is None:
+            raise OutOfSubset('list.reverse on a list of symbolic length')
+        items = list(reversed(items))
+        l.seqs = [z3.Concat(*[z3.Unit(i.terms()[ci]) for i in items]) if len(items) > 1 else
+                  (z3.Unit(items[0].terms()[ci]) if items else z3.Empty(l.seqs[ci].sort())) for ci in range(len(l.seqs))]
+        l.view = None
+        I.ctx.writeback(l)
+        return VNone()
 
     def meth_VTuple_keys(self, I, t): return t
 
